@@ -10,7 +10,14 @@
      call := kind.callee.arg.dst.k    kind 0: leaf  — yield(site=callee); dst = (arg + k) % 1009
                                       kind 1: fn j  — dst = F_j(arg)   (F_j returns its local v1)
                                       kind 2: pure yield statement `yield(site=callee)` (absent from P)
+                                      kind 3: dfn j — r1, r2 = D_j(arg); println("D", id, r1, r2); dst = r1
      fn   := `,`-separated prefix tokens of the body (see `parseStmt`)
+     optional 5th/6th sections: <finfo>/<dops>
+     finfo := kind.named.nres per function; kind 1 = a function with deferred calls ("D function"): its results are the
+              locals 6 and 7 (assigned by ordinary actions right before `R`; for named results local 6/7 ARE the result
+              variables), action 2000+d = `defer <closure d>`, action 4000 = `panic("p")`
+     dops  := per deferred closure a `,`-separated op list: 1.v.a.b  v = (v*a + b) % 1009 | 2.site  yield(site)
+              | 3.id.v  println("d", id, v) | 4  recover()
   ops:
      ref  <prog>            → trace of the reference semantics of P (yield statements erased)
      mach <prog> <bits>     → trace of the flattened machines of P′ under the schedule `enabled[site] = bits[site]`
@@ -21,6 +28,7 @@
 import GV.Model.Ctrl
 import GV.Model.Flat
 import GV.Model.Blocking
+import GV.Model.RetDefer
 
 namespace GV.Driver.C02
 open GV.Ctrl GV.Flat
@@ -29,11 +37,22 @@ structure ActD where (dst x y k p : Nat) deriving Inhabited
 structure CondD where (x k m t p : Nat) deriving Inhabited
 structure CallD where (kind callee arg dst k : Nat) deriving Inhabited
 
+inductive DOp where
+  | mod (v a b : Nat)
+  | yld (site : Nat)
+  | prt (id v : Nat)
+  | recov
+  deriving Inhabited
+
+structure FInfo where (kind named nres : Nat) deriving Inhabited
+
 structure Prog where
   acts : Array ActD
   conds : Array CondD
   calls : Array CallD
   fns : Array Stmt
+  finfo : Array FInfo := #[]
+  dops : Array (List DOp) := #[]
 
 /-- concrete store: locals 0..7, globals 8..11, trace (reversed), error flag -/
 structure St where
@@ -41,6 +60,8 @@ structure St where
   glob : Array Nat
   out : List String
   err : Bool := false
+  pend : List Nat := []          -- `$deferred` of this frame, top first
+  panicking : Bool := false
   deriving Inhabited
 
 def St.get (s : St) (v : Nat) : Nat := if v < 8 then s.loc.getD v 0 else s.glob.getD (v - 8) 0
@@ -115,14 +136,30 @@ def parseFn (s : String) : Option Stmt :=
   | some (st, []) => some st
   | _ => none
 
-def parseProg (s : String) : Option Prog :=
-  match s.splitOn "/" with
-  | [a, c, k, f] => do
+def parseDOp (s : String) : Option DOp :=
+  match nums s with
+  | [1, v, a, b] => some (.mod v a b)
+  | [2, site] => some (.yld site)
+  | [3, id, v] => some (.prt id v)
+  | [4] => some .recov
+  | _ => none
+
+def parseProg4 (a c k f : String) : Option Prog := do
     let acts ← (table a).mapM fun | [d, x, y, k, p] => some (ActD.mk d x y k p) | _ => none
     let conds ← (table c).mapM fun | [x, k, m, t, p] => some (CondD.mk x k m t p) | _ => none
     let calls ← (table k).mapM fun | [kd, ce, ar, d, k] => some (CallD.mk kd ce ar d k) | _ => none
     let fns ← (if f == "-" then [] else f.splitOn ";").mapM parseFn
-    pure ⟨acts.toArray, conds.toArray, calls.toArray, fns.toArray⟩
+    pure { acts := acts.toArray, conds := conds.toArray, calls := calls.toArray, fns := fns.toArray }
+
+def parseProg (s : String) : Option Prog :=
+  match s.splitOn "/" with
+  | [a, c, k, f] => parseProg4 a c k f
+  | [a, c, k, f, fi, d] => do
+    let P ← parseProg4 a c k f
+    let finfo ← (table fi).mapM fun | [kd, nm, nr] => some (FInfo.mk kd nm nr) | _ => none
+    let dops ← (if d == "-" then [] else d.splitOn ";").mapM fun cl =>
+      (if cl == "" then [] else cl.splitOn ",").mapM parseDOp
+    pure { P with finfo := finfo.toArray, dops := dops.toArray }
   | _ => none
 
 /-! #### concrete primitives -/
@@ -148,10 +185,15 @@ def erase (P : Prog) (s : Stmt) : Stmt := eraseCalls (isYieldStmt P) s
 
 def fuelMax : Nat := 200000
 
-/-- result of running function `j`: (return value, globals, trace, number of suspensions), `none` = failure -/
-abbrev FnRun := Nat → Nat → Array Nat → List String → Option (Nat × Array Nat × List String × Nat)
+/-- result of running function `j`: (result 1, result 2, globals, trace, number of suspensions), `none` = failure -/
+abbrev FnRun := Nat → Nat → Array Nat → List String → Option (Nat × Nat × Array Nat × List String × Nat)
 
 def freshLoc (arg : Nat) : Array Nat := #[arg, 0, 0, 0, 0, 0, 0, 0]
+
+/-- JavaScript `undefined` as a result value (never a legal program value: all values are < 1009) -/
+def undefVal : Nat := 1000000
+
+def showVal (v : Nat) : String := if v == undefVal then "undefined" else toString v
 
 /-- effect of call site `f` given how callee functions run (`run`) -/
 def doCall (P : Prog) (run : FnRun) (f : Nat) (s : St) : St :=
@@ -160,7 +202,11 @@ def doCall (P : Prog) (run : FnRun) (f : Nat) (s : St) : St :=
   | 0 => s.set d.dst ((s.get d.arg + d.k) % 1009)
   | 1 =>
     match run d.callee (s.get d.arg) s.glob s.out with
-    | some (r, g, o, _) => ({ s with glob := g, out := o }).set d.dst r
+    | some (r, _, g, o, _) => ({ s with glob := g, out := o }).set d.dst r
+    | none => { s with err := true }
+  | 3 =>
+    match run d.callee (s.get d.arg) s.glob s.out with
+    | some (r1, r2, g, o, _) => (({ s with glob := g, out := o }).print s!"D {f} {showVal r1} {showVal r2}").set d.dst r1
     | none => { s with err := true }
   | _ => s
 
@@ -168,13 +214,38 @@ def doCall (P : Prog) (run : FnRun) (f : Nat) (s : St) : St :=
 def suspOf (P : Prog) (run : FnRun) (en : Nat → Bool) (f : Nat) (s : St) : Nat :=
   let d := P.calls.getD f default
   match d.kind with
-  | 1 => match run d.callee (s.get d.arg) s.glob s.out with
-    | some (_, _, _, n) => n
+  | 1 | 3 => match run d.callee (s.get d.arg) s.glob s.out with
+    | some (_, _, _, _, n) => n
     | none => 0
   | _ => if en d.callee then 1 else 0
 
-def mkEnv (P : Prog) (run : FnRun) : Env St :=
-  ⟨fun a s => if a ≥ 1000 then doCall P run (a - 1000) s else doAct P a s, doCond P, doCall P run⟩
+/-- primitive actions: ordinary table actions; 1000+f = non-blocking call site f; 2000+d = `defer <closure d>`;
+    4000 = `panic("p")` -/
+def doActX (P : Prog) (run : FnRun) (a : Nat) (s : St) : St :=
+  if a ≥ 4000 then { s with panicking := true }
+  else if a ≥ 2000 then { s with pend := (a - 2000) :: s.pend }
+  else if a ≥ 1000 then doCall P run (a - 1000) s
+  else doAct P a s
+
+def mkEnv (P : Prog) (run : FnRun) : Env St := ⟨doActX P run, doCond P, doCall P run⟩
+
+/-- one deferred closure run to completion (its yields have no effect on the store) -/
+def doDOp (s : St) : DOp → St
+  | .mod v a b => s.set v ((s.get v * a + b) % 1009)
+  | .yld _ => s
+  | .prt id v => s.print s!"d {id} {s.get v}"
+  | .recov => { s with panicking := false }
+
+def doDeferred (P : Prog) (d : Nat) (s : St) : St := (P.dops.getD d []).foldl doDOp s
+
+/-- deferred calls and the result expression of a D function, for `GV.RetDefer` -/
+def dEnv (P : Prog) : GV.RetDefer.DEnv St (Nat × Nat) := ⟨doDeferred P, fun s => (s.get 6, s.get 7)⟩
+
+/-- suspensions of deferred closure `d`: one per enabled yield op -/
+def dSusp (P : Prog) (en : Nat → Bool) (d : Nat) : Nat :=
+  ((P.dops.getD d []).filter fun | .yld site => en site | _ => false).length
+
+def finfoOf (P : Prog) (j : Nat) : FInfo := P.finfo.getD j ⟨0, 0, 0⟩
 
 /-- reference run of function `j` (P: yields erased), call depth bounded by `d` -/
 def runRef (P : Prog) : Nat → FnRun
@@ -183,8 +254,14 @@ def runRef (P : Prog) : Nat → FnRun
     match P.fns[j]? with
     | none => none
     | some body =>
-      match evalF (mkEnv P (runRef P d)) fuelMax (erase P body) ⟨freshLoc arg, g, o, false⟩ with
-      | some (_, s) => if s.err then none else some (s.get 1, s.glob, s.out, 0)
+      match evalF (mkEnv P (runRef P d)) fuelMax (erase P body) { loc := freshLoc arg, glob := g, out := o } with
+      | some (_, s) =>
+        if s.err then none
+        else if (finfoOf P j).kind == 1 then
+          -- Go: results are fixed by the return statement (locals 6/7), then the deferred calls run LIFO
+          let r := GV.RetDefer.goReturn (dEnv P) ((finfoOf P j).named == 1) s.pend s
+          if r.2.panicking then none else some (r.1.1, r.1.2, r.2.glob, r.2.out, 0)
+        else some (s.get 1, 0, s.glob, s.out, 0)
       | none => none
 
 /-- machine run of function `j` (P′ flattened) under the schedule `en` -/
@@ -197,16 +274,30 @@ def runMach (P : Prog) (en : Nat → Bool) : Nat → FnRun
       let sub := runMach P en d
       let E := mkEnv P sub
       let code := flatten body
-      match runF E id (fun _ f s => suspOf P sub en f s) code fuelMax code ⟨freshLoc arg, g, o, false⟩ none false 0 0 with
-      | some (s, _, ns) => if s.err then none else some (s.get 1, s.glob, s.out, ns)
+      match runF E id (fun _ f s => suspOf P sub en f s) code fuelMax code { loc := freshLoc arg, glob := g, out := o } none false 0 0 with
+      | some (s, _, ns) =>
+        if s.err then none
+        else if (finfoOf P j).kind == 1 then
+          -- `$24r = e; $s = n; case n: return $24r;` + `$callDeferred` with save / restore on every suspension;
+          -- a panicking body takes the `catch` path (`$s = -1; return <zero>`), which loses the value on resumption
+          let named := (finfoOf P j).named == 1
+          let kind : GV.RetDefer.RetKind (Nat × Nat) :=
+            if s.panicking then .panicZero (0, 0) (undefVal, undefVal) else .cached ((dEnv P).retv s)
+          match GV.RetDefer.runRetF (dEnv P) id (fun _ dd _ => dSusp P en dd) kind named
+              fuelMax s (s.pend.map .fresh) 0 true 0 with
+          | some (v, s', ns') =>
+            if s'.panicking then none
+            else some (v.1, if (finfoOf P j).nres == 1 then 0 else v.2, s'.glob, s'.out, ns + ns')
+          | none => none
+        else some (s.get 1, 0, s.glob, s.out, ns)
       | none => none
 
 def initGlob : Array Nat := #[1, 2, 3, 5]
 
-def showRun (r : Option (Nat × Array Nat × List String × Nat)) (withSusp : Bool) : String :=
+def showRun (r : Option (Nat × Nat × Array Nat × List String × Nat)) (withSusp : Bool) : String :=
   match r with
   | none => "model-failure"
-  | some (v, g, o, ns) =>
+  | some (v, _, g, o, ns) =>
     let tr := ";".intercalate (o.reverse ++ [s!"r {v} {g.getD 0 0} {g.getD 1 0} {g.getD 2 0} {g.getD 3 0}"])
     if withSusp then s!"{tr} #susp={ns}" else tr
 
